@@ -139,6 +139,17 @@ def variants(inv, rnd, tier):
                     [(0x1122, 4, None, 8), (0x1123, 5, None, None)], [(0x1122, 4, 16, None), (0x1123, 5, None, None)]):
             for ca, cs in ((None, None), (16, None), (32, None), (None, 16), (32, 16), (16, 8)):
                 yield {cl.SRV_ADDR: -1 if ca is None else ca, cl.SRV_SIZE: -1 if cs is None else cs}, a_define_bymem(0xF301, ent), [], 'define by memory'
+        # one deviating entry at every position of a 2..5-entry definition (every entry must agree with the announced format, not
+        # only the first and the last), and two deviating entries
+        base = (0x1122, 4, None, None)
+        for dev in ((0x112233, 4, None, None), (0x1123, 0x120, None, None), (0x1123, 5, 24, None), (0x1123, 5, None, 16), (0x1123, 5, 16, 8)):
+            for n in (2, 3, 4, 5):
+                for pos in range(n):
+                    for pos2 in (None, (pos + 2) % n):
+                        ent = [dev if i in (pos, pos2) else (base[0] + i, base[1], None, None) for i in range(n)]
+                        for ca, cs in ((None, None), (16, None), (None, 8)):
+                            yield ({cl.SRV_ADDR: -1 if ca is None else ca, cl.SRV_SIZE: -1 if cs is None else cs}, a_define_bymem(0xF301, ent), [],
+                                   'define by memory')
     if inv.callid == 15 and inv.args[0] == 1:
         # control type x presence x rate x how the caller typed the Baudrate: the full product (conversions between the
         # fixed / specific / identifier forms depend on all of them at once)
